@@ -3,7 +3,11 @@ from common import Report, Rng, coq_check_props, harness_build, log
 import netlib as N
 import respgen as G
 
-ENDINGS = ["close", "garbage", "halfframe", "badarity", "nonutf8", "half"]
+ENDINGS = ["close", "garbage", "halfframe", "badarity", "nonutf8", "half", "abort", "unknown-long"]
+
+
+def unknown_cmd(name):
+    return b"*1\r\n$%d\r\n%s\r\n" % (len(name), name)
 
 
 def end_ops(cid, how):
@@ -17,6 +21,12 @@ def end_ops(cid, how):
         return ["send %s %s" % (cid, b"*3\r\n$3\r\nGET\r\n$1\r\na\r\n$1\r\nb\r\n".hex()), "recv %s eof 2000" % cid, "close %s" % cid]
     if how == "nonutf8":
         return ["send %s %s" % (cid, b"*2\r\n$3\r\nGET\r\n$2\r\n\xff\xfe\r\n".hex()), "recv %s eof 2000" % cid, "close %s" % cid]
+    if how == "abort":
+        return ["abort %s" % cid]
+    if how.startswith("unknown-long"):
+        # an unknown command with a long name, multi-byte characters at every alignment near 64 / 128 / 256
+        n = int(how.split(":")[1]) if ":" in how else 63
+        return ["send %s %s" % (cid, unknown_cmd(b"A" * n + "é€😀".encode() * 3).hex()), "recv %s eof 2000" % cid, "close %s" % cid]
     return ["half %s" % cid, "recv %s eof 2000" % cid, "close %s" % cid]
 
 
@@ -40,8 +50,13 @@ def make(rng, tier):
             nid += 1
             ops.append("tryconn %s 350" % extra)
             expect.append((len(ops) - 1, "notserved", "connection number %d is served although %d are already being served" % (mx + 1, mx)))
+            if r.chance(1, 3):
+                # a client that connects while the server is full and resets before it is accepted: the dead socket must not cost a slot
+                ops += ["conn dead%d" % nid, "sleep 30", "abort dead%d" % nid, "sleep 30"]
             victim = r.choice(live)
             how = r.choice(ENDINGS)
+            if how == "unknown-long":
+                how = "unknown-long:%d" % r.choice([r.rng(0, 300), 61, 62, 63, 64, 125, 126, 127, 253, 254, 255])
             ops += end_ops(victim, how)
             live.remove(victim)
             ops.append("recv %s 5 3000" % extra)
